@@ -141,7 +141,17 @@ def first_error(doc, inst):
     if not errs:
         return None
     e = errs[0]
-    msg = str(e.message)[:160]
+
+    def brief(m):
+        # the message starts with the instance (which may be hundreds of digits long): keep the diagnostic part
+        m = str(m)
+        if len(m) <= 160:
+            return m
+        if "is valid under each of" in m:
+            return m[:40] + " ... is valid under each of ... " + m[-70:]
+        return m[:60] + " ... " + m[-95:]
+
+    msg = brief(e.message)
 
     def walk(x, depth=0):
         # an inner oneOf that is satisfied by SEVERAL branches (reported through an enclosing anyOf/prefixItems/...)
@@ -156,7 +166,7 @@ def first_error(doc, inst):
 
     inner = walk(e)
     if inner is not None and inner is not e:
-        return "oneOf", "/".join(str(p) for p in inner.absolute_path), str(inner.message)[:160]
+        return "oneOf", "/".join(str(p) for p in inner.absolute_path), brief(inner.message)
     return str(e.validator), "/".join(str(p) for p in e.absolute_path), msg
 
 
@@ -198,6 +208,9 @@ def run_T(case, ctx):
             except Exception:
                 ctx.skip("output not JSON-encodable (C14)")
                 continue
+            if _has_nan(out.value):
+                ctx.skip("output holds NaN, which is not a JSON value")
+                continue
             ctx.count("outputs_validated")
             validated += 1
             err = first_error(docs["output"], inst)
@@ -231,6 +244,22 @@ def run_T(case, ctx):
             ctx.trivial("documents valid, no accepted input")
     finally:
         b.cleanup()
+
+
+def _has_nan(v, d=0):
+    from decimal import Decimal
+
+    if isinstance(v, float):
+        return v != v
+    if isinstance(v, Decimal):
+        return v.is_nan()
+    if d > 6:
+        return False
+    if isinstance(v, dict):
+        return any(_has_nan(x, d + 1) for x in v.values()) or any(_has_nan(x, d + 1) for x in v)
+    if isinstance(v, (list, tuple, set, frozenset)) or type(v).__name__ == "deque":
+        return any(_has_nan(x, d + 1) for x in v)
+    return False
 
 
 def _has_unsafe_decimal(v, d=0):
